@@ -90,6 +90,26 @@ pub fn lattice_colours<T: F, const N: usize>(bx: &[Comp; N], small: bool, sum_le
     out
 }
 
+/// "all in-range colours": the lattice plus a deterministic stream of interior colours of the space's documented box.
+/// The partial CAM16 types document no range (the box used for their lattice is this harness's choice, and arbitrary triples of
+/// it are not images of any colour: e.g. brightness 26 with colourfulness 60 has |R_a| > 400 in the inverse model), so no
+/// interior stream is drawn for them; C16 inverts the forward images of in-range XYZ colours instead.
+pub fn with_interior<T: F, const N: usize>(name: &str, bx: &[Comp; N], small: bool, sum_le_one: Option<(usize, usize)>, mut out: Vec<[T; N]>) -> Vec<[T; N]> {
+    if name.starts_with("Cam16P") { return out; }
+    let total = out.len();
+    let mut rng = Rng::new(0xC07 ^ (N as u64) << 4 ^ (total as u64) << 8 ^ if T::TAG == "f32" { 1 << 40 } else { 2 << 40 });
+    for _ in 0..(if small { 48 } else { 480 }) {
+        let mut a = [T::of(0.0); N]; let mut ok = true;
+        for i in 0..N {
+            let (lo, hi, lo2, hi2) = match bx[i] { Comp::R(lo, hi) => (lo, hi, lo, hi), Comp::Hue => (-180.0, 360.0, 0.0, 360.0) };
+            a[i] = T::of(rng.range(lo2, hi2)); ok &= admissible(a[i].to64(), lo, hi);
+        }
+        if let Some((i, j)) = sum_le_one { if a[i].to64() + a[j].to64() > 1.0 { ok = false; } }
+        if ok { out.push(a); }
+    }
+    out
+}
+
 /// documented component ranges by model name (field order); `Xyz` is the D65 box
 pub fn space_box(name: &str) -> [Comp; 3] {
     use Comp::*;
@@ -119,7 +139,8 @@ pub fn space_box(name: &str) -> [Comp; 3] {
 fn hwb_like(name: &str) -> Option<(usize, usize)> { if name == "Hwb" || name == "Okhwb" { Some((1, 2)) } else { None } }
 fn space_colours<T: F>(name: &str, small: bool) -> Vec<[T; 3]> {
     let base = name.split(':').next().unwrap();
-    lattice_colours::<T, 3>(&space_box(if name.starts_with("Xyz") { name } else { base }), small, hwb_like(base))
+    let bx = space_box(if name.starts_with("Xyz") { name } else { base });
+    with_interior(base, &bx, small, hwb_like(base), lattice_colours::<T, 3>(&bx, small, hwb_like(base)))
 }
 
 // ------------------------------------------------------------------------------------------------ judging one call
@@ -214,7 +235,7 @@ where S: ArrayCast<Array = [T; N]>, D: ArrayCast<Array = [T; M]> + FromColorUncl
     let bx3 = space_box(if src.starts_with("Xyz") { src } else { base });
     let mut bx = [Comp::R(0.0, 0.0); N];
     for i in 0..N { bx[i] = bx3[i]; }
-    let cs = lattice_colours::<T, N>(&bx, small, hwb_like(base));
+    let cs = with_interior(base, &bx, small, hwb_like(base), lattice_colours::<T, N>(&bx, small, hwb_like(base)));
     let what = format!("edge:{}->{}", src, dst);
     for a in &cs {
         let a = *a;
@@ -364,5 +385,5 @@ pub fn run(tier: &str, seed: u64, dir: &str) {
     run_edges_f64(&mut out, th);
     luv_vprime!(&mut out, f32); luv_vprime!(&mut out, f64);
     crate::c07_ops::run_ops(&mut out, th);
-    out.finish(dir, "\"exhaustive\":{\"note\":\"the boundary lattice is enumerated completely (every combination of the per-component lattice values); no random inputs\"}");
+    out.finish(dir, "\"exhaustive\":{\"note\":\"the boundary lattice is enumerated completely (every combination of the per-component lattice values), plus a deterministic stream of interior colours per space and near-identical pairs for the differences\"}");
 }
